@@ -10,6 +10,9 @@ EXPLANATION = (
     "pc = state.begin, which is unreachable unless iterations_left > 0 and is accompanied by iterations_left −= 1. R4 nesting: pushing a loop is unreachable when its end exceeds "
     "the enclosing loop's end. R5 length guards before materialisation: every CatVec→Vec conversion inside step is unreachable when the value's length exceeds its immediate/constant "
     "bound. R6 linear weighing: on the opcodes_weight ↔ opcodes_car_weight recursion the slice weighed recursively must be disjoint from the remainder handed back."
+    " R1 also requires every arm other than Loop to hand back the whole tail after its opcode (`rest/<variant>`: instructions cut off behind a Jmp would run unweighed when a branch lands on them)."
+    " Shared: C12.T8 (the charged weight is the weight of the whole decoded program)."
+    " R7 once per transaction: the fee counts each covenant of tx.covenants once, so check_tx_validity may execute it once: the set of validated covenant hashes lives across the input loop, a hit skips validation, a success is recorded."
     " R5 also requires the guarding length test to be made on the full-width length (`.../reduced`: a test on `len as u16` or on a saturated length lets longer strings through at the price of the bound)."
 )
 NOT_DECIDED = ["the inequality executed steps ≤ weight as arithmetic over all programs", "memory high-water marks of CatVec operations"]
@@ -41,6 +44,10 @@ def _lower_bound(e):
     if e[0] == "phi":
         return min(_lower_bound(x) for x in e[1])
     return 0
+
+
+import re
+_TAIL = re.compile(r"^(Option::unwrap|Option::expect|try)\(core::slice::<impl \[T\]>::split_first\(\$1\)(, [^()]*)?\)\.1$|^core::slice::index::<impl std::ops::Index<I> for \[T\]>::index\(\$1, RangeFrom::RangeFrom\{start: 1\}\)$")
 
 
 def _weight_table(ctx, r):
@@ -79,6 +86,15 @@ def r1_min_weight(ctx):
         w = rets[0][2][1][0]
         lb = _lower_bound(w)
         r.check(lb >= 1, "arm/" + v, "weight(%s) ≥ %d" % (v, lb), "weight of %s is %s: lower bound %d — a zero-weight instruction executes for free" % (v, sig(w)[:100], lb), b.where(rets[0][0], rets[0][1]))
+        # every instruction is weighed: the remainder handed back starts right after this opcode (for Loop: the body is part of it, or exactly the weighed body is cut off)
+        rest = rets[0][2][1][1]
+        rs = sig(rest)
+        if _TAIL.match(rs):
+            r.ok("rest/" + v, "remainder after %s is the whole tail" % v)
+        elif q.is_call(rest, "index") and _TAIL.match(sig(rest[2][0])) and "RangeFrom{" in sig(rest[2][1]) and v != "Loop":
+            r.violation("rest/" + v, "the %s arm hands back %s: the instructions cut off are never weighed although a branch can still reach them — they execute for free" % (v, rs[:160]), b.where(rets[0][0], rets[0][1]))
+        else:
+            r.undecided("rest/" + v, "remainder after %s not recognised: %s" % (v, rs[:160]), b.where(rets[0][0], rets[0][1]))
 
 
 def r2_loop_weight(ctx):
@@ -347,4 +363,54 @@ def _sccs(prog, ids):
     return out
 
 
-RULES = [r1_min_weight, r2_loop_weight, r3_forward_pc, r4_nesting, r5_length_guards, r6_linear_weighing]
+def r7_once_per_tx(ctx):
+    r = ctx.rule("R7", "a covenant is charged once per transaction (Transaction::base_fee sums the weights of tx.covenants) — so it may run at most once per transaction: the set of "
+                       "already validated covenant hashes is created before the loop over the inputs, a hit skips validate_tx_scripts, a successful validation is recorded", positional=False)
+    from rules.props import c04
+    b = ctx.body("melstf::state::applytx::check_tx_validity", r)
+    mode = c04._input_mode(b)[0]
+    loops = [l for l in q.loop_with_source(b, lambda s_: True) if sig(l[3]) == (c04.ENUM_SRC if mode == "enumerate" else c04.PLAIN_SRC)]
+    r.anchor(loops, "input loop of check_tx_validity")
+    h, blocks, latches, src = loops[0]
+    val = [(bi, e) for bi, e in q.call_exprs(b, "validate_tx_scripts") if bi in blocks]
+    r.anchor(val, "validate_tx_scripts call in the input loop")
+    cache = [(bi, e) for bi, e in q.call_exprs(b, "HashSet::contains", "contains") if bi in blocks and ("covhash" in sig(e))]
+    if not cache:
+        r.undecided("once/cache", "no set of validated covenant hashes is consulted in the input loop: a covenant guarding k inputs runs k times; whether its weight is then "
+                    "charged k times is not decided here", b.where(val[0][0]))
+        return
+    f = force(b, {e: 1 for bi, e in cache})
+    r.check(not any(vb in f.reach for vb, _ in val), "once/hit=>skipped", "a covenant hash already validated for this transaction is not executed again",
+            "validate_tx_scripts is still reached when the covenant hash is already in the set", b.where(cache[0][0]))
+    recv = mir.strip(cache[0][1][2][0])
+    defs = q.var_def_exprs(b, recv[1]) if recv[0] == "var" else []
+    if len(defs) >= 1:
+        inside = [d for d in defs if d[0][0] in blocks]
+        r.check(not inside, "once/one-set", "the set is created once, before the loop over the inputs",
+                "the set of validated covenant hashes is (re-)created inside the loop over the inputs: it is empty at every input, so a covenant guarding k inputs is executed k times "
+                "while its weight is charged once", b.where(inside[0][0][0]) if inside else None)
+    else:
+        r.undecided("once/one-set", "the set consulted is %s: where it is created is not decided" % sig(recv)[:80], b.where(cache[0][0]))
+    ins = [bi for bi, e in q.call_exprs(b, "HashSet::insert", "insert") if bi in blocks and "covhash" in sig(e) and sig(mir.strip(e[2][0])) == sig(recv)]
+    if ins:
+        ok = True
+        for vb, ve in val:
+            fz = force(b, {ve: V(0)})
+            wo = fz.reach_from(vb, avoid=ins)
+            if any(l in wo for l in latches):
+                ok = False
+        r.check(ok, "once/validated=>recorded", "after a successful validation the covenant hash is recorded before the next input",
+                "a path from a successful validation to the next input does not record the covenant hash", b.where(val[0][0]))
+    else:
+        r.violation("once/validated=>recorded", "validated covenant hashes are never recorded in the set that is consulted: every input re-executes its covenant", b.where(val[0][0]))
+
+
+def shared(ctx):
+    """'its weight — the quantity the spender is charged for': the fee is computed from covenant_weight_from_bytes, the bound on the executed steps from the weight of the
+    decoded program; C12.T8 decides that the two are one number (whole-program weighing, not a sum over separately decoded pieces)."""
+    from rules.engine import core
+    from rules.props import c12
+    core.import_rules(ctx, [c12.t8_one_weight], "X12")
+
+
+RULES = [r1_min_weight, r2_loop_weight, r3_forward_pc, r4_nesting, r5_length_guards, r6_linear_weighing, r7_once_per_tx, shared]
